@@ -4,7 +4,7 @@ from props import c10
 
 RULE = ("cases = random conjunctive provenance hypergraphs (2-5 units, 1-4 rows of 1-3 units each: shared units, rows "
         "needing several units, units owning several rows, units owning no row, isolated units), labels over 1-3 "
-        "classes, K in 1..3, ~30% tied distances; for every instance ALL targets x boundary_with x boundary_without "
+        "classes, K in 1..3, ~30% tied distances, ~20% distinct but nearly equal distances (2^27 + k, 1 + k/2^30); HISTORIES (an oracle, two rows swapped in place on the same Provenance object, another oracle with the same tally type object); for every instance ALL targets x boundary_with x boundary_without "
         "(incl. None) are queried: the result dictionaries (counts in domain order) are compared inside Coq with the "
         "oracle model run on the compiled diagram dumped from the implementation (accepted by valid_compiled, and EQUAL node by node to the model of compile() over the component structure its graph step derives), and with "
         "the counting specification (histogram over all 2^(units-1) assignments); several instances with the same K "
